@@ -231,6 +231,10 @@ func (a *c06Local) Sign(_ context.Context, data []byte) (e2types.Signature, erro
 	if c06Refuse {
 		return nil, errors.New("refused by the account")
 	}
+	if c06FailOnce > 0 {
+		c06FailOnce--
+		return nil, errors.New("transient failure of the account")
+	}
 	mc.Yield() // unlocking a key, a hardware signer: other requests may run before the data is read
 	return a.key.Sign(data), nil
 }
@@ -238,6 +242,9 @@ func (a *c06Local) Sign(_ context.Context, data []byte) (e2types.Signature, erro
 // c06Refuse makes every account refuse to sign (slashing protection, a locked account, a remote signer that
 // is down) for as long as it is set.
 var c06Refuse bool
+
+// c06FailOnce makes the next signing attempt (of whichever account) fail; the one after it works again.
+var c06FailOnce int
 
 // c06Decline names one account for which a remote signer returns no signature in a batch request (as dirk does when
 // its slashing protection denies one of several accounts): the batch succeeds, that account's entry is empty.
@@ -328,6 +335,10 @@ func (a *c06Ordinary) signRoot(root, domain []byte) (e2types.Signature, error) {
 	if c06Refuse {
 		return nil, errors.New("refused by the remote signer")
 	}
+	if c06FailOnce > 0 {
+		c06FailOnce--
+		return nil, errors.New("transient failure of the remote signer")
+	}
 	msg, err := c06SigningData(root, domain)
 	if err != nil {
 		return nil, err
@@ -406,6 +417,10 @@ func (a *c06Distributed) Participants() map[uint64]string {
 func (a *c06Distributed) signRoot(root, domain []byte) (e2types.Signature, error) {
 	if c06Refuse {
 		return nil, errors.New("refused by the remote signer")
+	}
+	if c06FailOnce > 0 {
+		c06FailOnce--
+		return nil, errors.New("transient failure of the remote signer")
 	}
 	msg, err := c06SigningData(root, domain)
 	if err != nil {
@@ -642,22 +657,23 @@ func c06SelfTest(ring map[byte][]*c06Acct) {
 // Requests.
 
 type c06Req struct {
-	ep      string
-	desc    string // the request, written out
-	accts   []*c06Acct
-	roots   []phase0.Root     // reference object roots, one per account
-	domType phase0.DomainType // reference domain type of the duty
-	builder bool              // builder domain: genesis fork version, zero genesis validators root
-	epoch   phase0.Epoch      // the duty's epoch
-	sigs    []phase0.BLSSignature
-	err     error
-	asked   []string
-	done    bool
-	history string
-	refused bool // every account refused to sign during the judged request
-	decline int  // 1 + index of the one account the remote signer declines in the judged batch request (0: none)
-	batch   bool
-	specGap bool // the beacon node's spec does not list the domain type of this duty (builder domain only)
+	ep       string
+	desc     string // the request, written out
+	accts    []*c06Acct
+	roots    []phase0.Root     // reference object roots, one per account
+	domType  phase0.DomainType // reference domain type of the duty
+	builder  bool              // builder domain: genesis fork version, zero genesis validators root
+	epoch    phase0.Epoch      // the duty's epoch
+	sigs     []phase0.BLSSignature
+	err      error
+	asked    []string
+	done     bool
+	history  string
+	refused  bool // every account refused to sign during the judged request
+	failOnce bool // the first signing attempt of the judged request fails, later ones work
+	decline  int  // 1 + index of the one account the remote signer declines in the judged batch request (0: none)
+	batch    bool
+	specGap  bool // the beacon node's spec does not list the domain type of this duty (builder domain only)
 }
 
 func (rq *c06Req) domain() phase0.Domain {
@@ -885,8 +901,8 @@ func c06Judge(rq *c06Req) (clause, msg string) {
 		}
 		return "", ""
 	}
-	if rq.err != nil && rq.specGap {
-		return "", "" // refusing to sign without the domain type is fine
+	if rq.err != nil && (rq.specGap || rq.failOnce) {
+		return "", "" // refusing to sign without the domain type is fine; so is reporting the failed attempt
 	}
 	if rq.err != nil {
 		return "request-failed", fmt.Sprintf("no signature returned although every account and the domain provider work: %v", rq.err)
@@ -908,6 +924,9 @@ func c06Judge(rq *c06Req) (clause, msg string) {
 		decErr := sig.Deserialize(rq.sigs[i][:])
 		if decErr == nil && c06Verify(&sig, a.pub, c06RefSigningRoot(rq.roots[i], dom)) {
 			continue
+		}
+		if rq.failOnce && rq.batch && rq.sigs[i] == (phase0.BLSSignature{}) {
+			continue // the account whose attempt failed has no signature: fine in a batch
 		}
 		// The property is violated at position i; find out how, for a stable and useful finding key.
 		for k := range rq.accts {
@@ -1110,9 +1129,18 @@ func c06Units(tier string) []hx.Unit {
 							c06Decline = rq.accts[k].acct.Name()
 						}
 					}
+					// ... or the first signing attempt may fail once (a signer that is briefly unavailable)
+					if !rq.refused && rq.decline == 0 && mc.Choose(2) == 1 {
+						rq.failOnce = true
+						c06FailOnce = 1
+					}
 					ep.run(context.Background(), svc, slot, rq.accts, rq)
 					c06Refuse = false
 					c06Decline = ""
+					c06FailOnce = 0
+					if rq.failOnce {
+						rq.desc += " (the first signing attempt fails, later ones work)"
+					}
 					if rq.decline > 0 {
 						rq.desc += fmt.Sprintf(" (the remote signer declines account %d, %s)", rq.decline-1, rq.accts[rq.decline-1].label)
 					}
